@@ -379,6 +379,7 @@ func mergeStats(res *HarnessResult, w *worker) {
 	s.ReachedEnd += t.ReachedEnd
 	s.BranchQueries += t.BranchQueries
 	s.CrossChecked += t.CrossChecked
+	s.CrossPruned += t.CrossPruned
 	s.CrossDisagree += t.CrossDisagree
 	s.CrossUnknown += t.CrossUnknown
 	for _, cs := range w.ctx.cross {
